@@ -1,35 +1,10 @@
-/- GENERATED by /verif/extract from /repo's working tree on every run. Do not edit. -/
-namespace SpecVerif.Generated
+/-
+Pinned event sequences of the mpx functions the models mirror (atomic operations, conditions,
+select cases, returns), frozen when the models were written against the repaired tree.
+`TiesMpx.lean` proves that the sequences regenerated from /repo on every run are equal to these.
+-/
+namespace SpecVerif.PinnedMpx
 
-def typeCodes : List (String × Nat) :=
-  [("TypeUndefined", 0),
-   ("TypeTrue", 1),
-   ("TypeFalse", 2),
-   ("TypeByte", 3),
-   ("TypeInt16", 10),
-   ("TypeInt32", 11),
-   ("TypeInt64", 12),
-   ("TypeUint16", 20),
-   ("TypeUint32", 21),
-   ("TypeUint64", 22),
-   ("TypeFloat32", 40),
-   ("TypeFloat64", 41),
-   ("TypeBin64", 30),
-   ("TypeBin128", 31),
-   ("TypeBin256", 32),
-   ("TypeBytes", 50),
-   ("TypeString", 60),
-   ("TypeList", 70),
-   ("TypeBigList", 71),
-   ("TypeMessage", 80),
-   ("TypeBigMessage", 81),
-   ("TypeStruct", 90)]
-def listElemSmall : Nat := 2
-def listElemBig : Nat := 4
-def msgFieldSmall : Nat := 3
-def msgFieldBig : Nat := 6
-def maxSize : Nat := 2147483647
-def protocolLine : String := "SpecMPX/1\n"
 def ev_channel_acquire : List String :=
   ["call ch.refs.Add(1)", "if refs == 1", "call panic(\"acquire of freed channel\")", "call ch.state.Load()", "if s == nil", "call panic(\"acquire of freed channel\")", "return s"]
 def ev_channel_tryAcquire : List String :=
@@ -105,4 +80,4 @@ def ev_reconnectTimeout : List String :=
 def ev_reader_read : List String :=
   ["if err != nil", "call io.ReadFull(r.reader, head)", "return nil, mpxError(err)", "call binary.BigEndian.Uint32(head)", "call r.buf.Reset()", "call r.buf.Grow(int(size))", "if err != nil", "call io.ReadFull(r.reader, buf)", "return nil, mpxError(err)", "return buf, status.OK"]
 
-end SpecVerif.Generated
+end SpecVerif.PinnedMpx
